@@ -34,7 +34,7 @@ fn check_ext_chunk(data: &[u8]) -> bool {
             want = Some(n as usize);
         }
     }
-    match (got, want) {
+    match (&got, want) {
         (Ok(v), Some(n)) => {
             assert!(v.len() == n, "one entry per declared external file");
             let mut k = 0;
@@ -48,25 +48,29 @@ fn check_ext_chunk(data: &[u8]) -> bool {
         (Ok(_), None) => assert!(false, "decoder accepted an external files chunk the format rejects"),
         (Err(_), Some(_)) => assert!(false, "decoder rejected a well-formed external files chunk"),
     }
+    core::mem::forget(got); // dropping io::Error (bit-packed pointer repr) is very expensive for CBMC
     decoded_ok
 }
 
 macro_rules! ext_shape {
-    ($hname:ident, $n:expr, $u:expr, $can_ok:expr) => {
+    ($hname:ident, $n:expr, $u:expr, $can_ok:expr, [$([$(($off:expr, $val:expr)),*]),*]) => {
         crate::verif_harness! {
-            /// ExternalFile::parse_chunk on every payload of exactly $n bytes (entry count symbolic: a
-            /// declared count of up to u32::MAX must not cause a capacity-overflow panic / abort).
+            /// ExternalFile::parse_chunk on every payload of exactly $n bytes (entry count symbolic: a huge declared count must not abort).
+            /// Length fields of strings are pinned to the listed concrete values (one decoder run per pin set); every other byte is symbolic.
             #[kani::stub(std::fmt::format, crate::verif_spec::stubs::format_stub)]
             #[kani::unwind($u)]
             fn $hname(s) {
-                let d: [u8; $n] = s.bytes();
-                let ok = check_ext_chunk(&d);
-                crate::vcover!(ok || !$can_ok, "a well-formed payload of this size decodes");
-                crate::vcover!(!ok, "a malformed payload of this size is rejected");
+                let mut d: [u8; $n] = s.bytes();
+                $(
+                    $( crate::verif_spec::pin16(&mut d, $off, $val); )*
+                    let ok = check_ext_chunk(&d);
+                    crate::vcover!(ok || !$can_ok, "a well-formed payload decodes");
+                    crate::vcover!(!ok, "a malformed payload is rejected");
+                )*
             }
         }
     };
 }
-ext_shape!(k_ext_files_12, 12, 3, true);
-ext_shape!(k_ext_files_27, 27, 4, true);
-ext_shape!(k_ext_files_41, 41, 18, true);
+ext_shape!(k_ext_files_12, 12, 3, true, [[]]);
+ext_shape!(k_ext_files_27, 27, 4, true, [[(24, 1)], [(24, 0)], [(24, 2)]]);
+ext_shape!(k_ext_files_41, 41, 4, true, [[(24, 0), (38, 1)]]);
